@@ -24,5 +24,6 @@ func NewBop[T helper.Number]() *Bop[T] {
 // Compute processes a channel of open, high, low, and close values,
 // computing the BOP for each entry.
 func (*Bop[T]) Compute(opening, high, low, closing <-chan T) <-chan T {
-	return helper.Divide(helper.Subtract(closing, opening), helper.Subtract(high, low))
+	// The opening waits for the closing to arrive; they may come from the same duplicated stream.
+	return helper.Divide(helper.Subtract(closing, helper.Buffered(opening, 1)), helper.Subtract(high, low))
 }
